@@ -220,9 +220,11 @@ class CellCycleController:
             return False
 
         lock = ctx.acquired_resources[resource_id]
+        # A re-entrant hold needs one release per acquisition: keep tracking it until the last one
+        still_held = lock.owner == ctx.operation_id and lock.hold_count > 1
         released = lock.release(owner=ctx.operation_id)
 
-        if released:
+        if released and not still_held:
             del ctx.acquired_resources[resource_id]
             self.dependency_graph.remove_all_for_agent(ctx.operation_id)
 
@@ -231,7 +233,8 @@ class CellCycleController:
     def release_all_resources(self, ctx: OperationContext) -> None:
         """Release all resources held by an operation."""
         for resource_id in list(ctx.acquired_resources.keys()):
-            self.release_resource(ctx, resource_id)
+            while resource_id in ctx.acquired_resources and self.release_resource(ctx, resource_id):
+                pass
 
     def check_deadlock(self) -> Optional[DeadlockInfo]:
         """Check for deadlocks in current operations."""
